@@ -148,11 +148,23 @@ type Chain struct {
 	Fin     string   `json:"fin"`     // Msg | Send
 	Var     int      `json:"var"`     // argument value class (see vStr ...): 0 plain, 1 and 2 the corners
 	Set     string   `json:"set"`     // global settings: "" default | unix | unixms | unixmicro | unixnano | durint | dursec | prec3
+	Wr      string   `json:"wr"`      // "" the destination accepts every write | "fail" it fails every write (ErrorHandler: a no-op function)
 }
 
-type countW struct{ n int }
+type countW struct {
+	n    int
+	fail bool // the destination fails every call: the event must still go back to its pool, and nothing may allocate
+}
 
-func (w *countW) Write(p []byte) (int, error) { w.n++; return len(p), nil }
+var errDest = errors.New("destination failed")
+
+func (w *countW) Write(p []byte) (int, error) {
+	w.n++
+	if w.fail {
+		return 0, errDest
+	}
+	return len(p), nil
+}
 
 func mkLogger(w *countW, c Chain) zerolog.Logger {
 	l := zerolog.New(w)
@@ -249,13 +261,19 @@ func main() {
 		variant = c.Var % 3
 		zerolog.TimestampFunc = stamp
 		restore := applySet(c.Set)
-		w := &countW{}
+		w := &countW{fail: c.Wr == "fail"}
+		oldEH := zerolog.ErrorHandler
+		if w.fail {
+			zerolog.ErrorHandler = func(error) {}
+		}
 		l := mkLogger(w, c)
 		send := c.Fin == "Send"
 		rec := map[string]interface{}{"a": "Chain", "chain": c.Chain, "ctx": c.Ctx, "enabled": c.Enabled, "fin": c.Fin, "build": buildName}
 		rec["var"], rec["set"] = c.Var, c.Set
 		measure(&l, ops, send, w, rec)
 		restore()
+		zerolog.ErrorHandler = oldEH
+		rec["wr"] = c.Wr
 		b, _ := json.Marshal(rec)
 		out.Write(b)
 		out.WriteByte('\n')
